@@ -18,6 +18,7 @@ package packetlimiter
 //@   modifies c.head, c.tail, c.total, c.minTime, c.times, c.counts, c.times[*], c.counts[*]
 //@   requires wf(c)
 //@   at-store total: assert [total-loses-expired-count] value == c.total - c.counts[c.head] && c.head != c.tail && c.times[c.head] - (now - c.interval) < 0
+//@   at-store head: assert [the-slot-left-behind-is-zeroed] value == 0 || (0 <= c.head && c.head < len(c.counts) && c.counts[c.head] == 0)
 //@   loop 1: invariant [shape] shape(c) && c.tail == old(c.tail) && len(c.times) == old(len(c.times)) && c.interval == old(c.interval)
 //@   loop 1: invariant [zero-outside] zeroOutside(c)
 //@   ensures [shape] shape(c)
